@@ -262,6 +262,7 @@ def systematic(B, I, R):
     probe window (and one beyond each end); every real at/over its bounds, NaN and infinities; every bool both ways;
     the same through settings lines."""
     cases = []
+    si = [k for k, p in enumerate(I) if p["name"] == "syncmode"]
     for i, p in enumerate(I):
         ops = []
         hi = min(p["up"], p["lo"] + 16)
@@ -297,8 +298,17 @@ def systematic(B, I, R):
     ei = [k for k, p in enumerate(R) if p["name"] == "epsilon_zero"]
     if ei:
         cases.append({"lp": 0, "ops": ["R %d 1:-1074" % ei[0], "V 1"]})
+    # the rational LP under every sequence of synchronisation-mode switches (typed setter, settings line, copy-settings)
+    if si:
+        k = si[0]
+        for s0 in (0, 1, 2):
+            for a in (0, 1, 2):
+                for b in (0, 1, 2):
+                    cases.append({"lp": 0, "ops": ["I %d %d" % (k, s0), "LOADLP", "I %d %d" % (k, a), "R 0 %s" % dy(1e-7), "I %d %d" % (k, b),
+                                                   "P %s -" % hexs("int:syncmode = %d" % a), "B 3 0", "X"]})
+                    cases.append({"lp": 0, "ops": ["I %d %d" % (k, s0), "LOADLP", "P %s -" % hexs("int:syncmode = %d" % a), "C I %d %d" % (k, b),
+                                                   "I %d %d" % (k, a), "V 1"]})
     # copy-settings across sync modes and back
-    si = [k for k, p in enumerate(I) if p["name"] == "syncmode"]
     if si:
         for a in (0, 1, 2):
             for b in (0, 1, 2):
@@ -364,8 +374,13 @@ def main():
             for f in sorted(os.listdir(cdir)):
                 cases.append({"lp": 1, "ops": [l.rstrip("\n") for l in open(os.path.join(cdir, f)) if l.strip()]})
         cases += systematic(B, I, R)
+        sidx = [k for k, p in enumerate(I) if p["name"] == "syncmode"]
         for c in range(ncases):
-            cases.append({"lp": ck.rng.randrange(2), "ops": g.history(ck.rng.randrange(3, nops))})
+            if sidx and ck.rng.random() < 0.4:
+                ops = ["I %d %d" % (sidx[0], ck.rng.randrange(3)), "LOADLP"] + g.history(ck.rng.randrange(3, nops))
+                cases.append({"lp": 0, "ops": ops})
+            else:
+                cases.append({"lp": ck.rng.randrange(2), "ops": g.history(ck.rng.randrange(3, nops))})
 
     os.makedirs(os.path.join(vlib.BUILD, "run"), exist_ok=True)
     hf = os.path.join(vlib.BUILD, "run", "C15.%d.h.cases" % os.getpid())
@@ -438,12 +453,22 @@ def main():
                     ck.violation(sig, "save/load round trip differs: %s after %s" % (ret, c["ops"][:j]),
                                  {"case": {"lp": c["lp"], "ops": c["ops"][:j]}, "observed": h})
                 prev = state_of(ml[j - 1])
-                if state_of(h) != prev:
+                hs = state_of(h)
+                if " rat=-1" in prev or prev.endswith("rat=-1"):
+                    hs_cmp = " ".join(w for w in hs.split(" ") if not w.startswith("rat="))
+                    prev_cmp = " ".join(w for w in prev.split(" ") if not w.startswith("rat="))
+                else:
+                    hs_cmp, prev_cmp = hs, prev
+                if hs_cmp != prev_cmp:
                     ck.violation("save-changes-state", "saveSettingsFile changed the object", {"case": c, "observed": h, "expected": prev})
                 ml[j] = "V ret=1 " + prev
                 continue
             if "ret=EXC" in h or "ret=SIGFPE" in h:
                 ck.count("impl:" + h.split()[1])
+            if " rat=-1" in m or m.endswith("rat=-1"):
+                # the model does not predict the rational LP after a copy-settings that changed the synchronisation mode
+                h = " ".join(w for w in h.split(" ") if not w.startswith("rat="))
+                m = " ".join(w for w in m.split(" ") if not w.startswith("rat="))
             if h != m:
                 # first differing field
                 hf_, mf_ = h.split(), m.split()
